@@ -137,7 +137,13 @@ theorem sensorNoise_count_eq_same (d : VDef) (hw : WellFormed d) (s : SensorSkel
   | some rs =>
     simp only
     have h1 : rs.Nodup := hns _ (mem_of_lookup_str hl)
-    exact Bool.eq_iff_iff.mpr (count_and_within_iff h1 (hrs s hs))
+    refine Bool.eq_iff_iff.mpr ?_
+    simp only [Bool.and_eq_true, beq_iff_eq]
+    constructor
+    · exact fun h => h.2
+    · intro h
+      obtain ⟨a, b⟩ := sameSet_iff.mp h
+      exact ⟨length_eq_of_sameSet h1 (hrs s hs) a b, h⟩
 
 theorem acceptsEkf_iff (d : VDef) (hw : WellFormed d) : acceptsEkf d = true ↔ validEkf d = true := by
   have hall : d.sensors.all (sensorNoiseCount d) = d.sensors.all (sensorNoiseSame d) := by
